@@ -550,3 +550,21 @@ for k in ("C01", "C19", "C20", "C08"):
 reg["C19"]["harnesses"].append({"name": "VH_D_Enqueue", "pkg": CO, "labels": list(PAYLOAD) + ["C08:message-names"], "reach": ["hand-off"],
     "opts": {"slots.callbacks": 0, "slots.locks": 0, "slots.schedules": 0, "slots.promises": 2, "slots.tasks": 2, "batch": 2},
     "opts_thorough": {"slots.callbacks": 0, "slots.locks": 0, "slots.schedules": 0, "slots.promises": 2, "slots.tasks": 3, "batch": 2}})
+# G6 (C08 "when a promise completes all of its outstanding tasks are completed in that same step"): a two-state clause of G,
+# re-proved for every transaction of every coroutine that completes promises
+for k in ("C08", "C06", "C02", "C07"):
+    ensure(k, PW, ["O2:G6"])
+reg["C08"]["explanation"] += "; guarantee G6: in every transaction any coroutine commits, a promise that leaves the pending state takes every outstanding task rooted at it to a finished state in that same transaction"
+# history independence of the dispatch cycle: an earlier cycle of the same process handed a resume task off and the
+# hand-off failed or succeeded (both explored); the checked cycle then meets an arbitrary database
+WARMD = {"name": "VH_D_Enqueue", "pkg": CO, "labels": list(PAYLOAD) + ["C08:message-names", "C08:dispatches-only"], "reach": ["hand-off"],
+    "opts": {"slots.callbacks": 1, "slots.locks": 0, "slots.schedules": 0, "slots.promises": 3, "slots.tasks": 2, "batch": 1, "warm": 1, "warmdispatch": 1}}
+WARMD["opts_thorough"] = dict(WARMD["opts"])
+for k in ("C01", "C08", "C19", "C20"):
+    reg[k]["harnesses"].append(dict(WARMD))
+# leases renewed earlier in the same process (heartbeats are part of the warm-up): the heartbeat coroutines after a warm-up
+for k, n in (("C07", "VH_T_Heartbeat"), ("C09", "VH_L_Heartbeat")):
+    src = [h for h in reg[k]["harnesses"] if h["name"] == n and h["pkg"] == CO and h.get("opts", {}).get("backend", 0) == 0 and h.get("opts", {}).get("warm", 0) == 0]
+    if src:
+        h = dict(src[0]); h["opts"] = dict(h["opts"]); h["opts"]["warm"] = 1; h["opts_thorough"] = dict(h["opts"])
+        reg[k]["harnesses"].append(h)
